@@ -242,7 +242,10 @@ class Tree(DictSWC):
 
             return branches, [node.id]
 
-        branches, _ = self.traverse(leave=collect_branches)
+        branches, child = self.traverse(leave=collect_branches)
+        if len(child) > 1:  # stem of a root with a single child
+            child.reverse()
+            branches.append(Tree.Branch(self, np.array(child, dtype=np.int32)))
         return branches
 
     def get_paths(self) -> list[Path]:
